@@ -991,13 +991,13 @@ func c11partialDrain(rep *vh.Report, seed uint64, idx int) {
 		return
 	}
 	// the link takes a few items and stalls again
-	take := 8 + r.Intn(20)
+	take := 12 + r.Intn(20)
 	base := tr.NWrites()
 	tr.BlockAgainAfter(take)
 	waitFor(func() bool { return tr.NWrites() >= base+take-1 && tr.Blocked() > 0 }, func() int64 { return int64(tr.NWrites()) }, 500*time.Millisecond)
 	backlog := n.chans[v].VerifBacklog()
 	var want []uint64
-	if backlog <= 56 {
+	if backlog <= 58 {
 		for i := 0; i < 5; i++ {
 			uid := uint64(fam+1)<<56 | uint64(i+1)
 			want = append(want, uid)
